@@ -57,8 +57,8 @@ type c13 struct{}
 
 func init() { register(&c13{}) }
 
-func (*c13) ID() string                      { return "C13" }
-func (*c13) Level() string                   { return "exploration" }
+func (*c13) ID() string                     { return "C13" }
+func (*c13) Level() string                  { return "exploration" }
 func (*c13) Decode(raw []byte) (any, error) { return decodeInto[C13Scenario](raw) }
 
 func (p *c13) Gen(seed uint64, i int, tier string) (any, bool) {
@@ -538,12 +538,12 @@ func (p *c13) Info() PropInfo {
 		Assumptions: []string{"interleavings are explored at the instrumented yield points (lock operations of packages mail and smtp, simulated connection reads and writes); between two yield points a task runs alone, unsynchronised accesses there are the race detector's job (it sees every access under -race, and the kernel creates no happens-before edge between tasks)",
 			"the seeded crypto/rand reader has a mutex of its own (a small masking source for races between calls that both draw randomness)",
 			"latencies are a few nanoseconds of virtual time in this build (tasks park by polling), timeouts never fire"},
-		Real:        []string{"go-mail Client.Send / DialAndSend / DialWithContext / Close, smtp.Client, Msg.WriteTo — from an instrumented scratch copy of /repo's working tree (61 lock calls rewritten, nothing else changed)", "Go race detector", "net/textproto"},
-		Stubbed:     []string{"goroutine scheduling (serialising kernel on a synctest bubble)", "TCP (sim.Pipe)", "SMTP server (refsmtpd, one session task per connection)", "clock", "crypto/rand"},
-		NotCovered:  []string{"TLS connections under concurrency", "interleavings inside crypto/tls or other dependencies"},
-		Exhaustive:  func(string) bool { return false },
+		Real:            []string{"go-mail Client.Send / DialAndSend / DialWithContext / Close, smtp.Client, Msg.WriteTo — from an instrumented scratch copy of /repo's working tree (61 lock calls rewritten, nothing else changed)", "Go race detector", "net/textproto"},
+		Stubbed:         []string{"goroutine scheduling (serialising kernel on a synctest bubble)", "TCP (sim.Pipe)", "SMTP server (refsmtpd, one session task per connection)", "clock", "crypto/rand"},
+		NotCovered:      []string{"TLS connections under concurrency", "interleavings inside crypto/tls or other dependencies"},
+		Exhaustive:      func(string) bool { return false },
 		HangIsViolation: true,
-		QuickBudget: 100 * time.Second, ThoroughBudget: 25 * time.Minute,
+		QuickBudget:     100 * time.Second, ThoroughBudget: 25 * time.Minute,
 	}
 }
 
